@@ -97,6 +97,15 @@ def network_case(ctx, out, desc, tseed):
         if not core.rclose(p2[t], p[k], scale * iscale, tol): return fail('power', id=k, a=str(p[k]), b=str(p2[t]))
     out.traces_validated += 1
     out.sample(dict(original=gen_net.pretty(desc), transformed=gen_net.pretty(desc2)))
+    # ---- the index maps handed to the solver (node numbering, source column order) do not matter either
+    from props.c01 import mapper_case
+    try:
+        A_np = na.nodal_analysis_coefficient_matrix(net)
+    except Exception:
+        A_np = None
+    nfail = len(out.spec_failures)
+    mapper_case(ctx, out, desc, net, pot, v, i, dict(canon, op='solve'), A_np)
+    if len(out.spec_failures) > nfail: return
     # ---- port impedance between two nodes is invariant as well (C06 domain)
     compare_ports(out, net, net2, sigma, sorted(sigma), fail, tol, core.Rng(tseed, 'port'), 2)
 
@@ -240,6 +249,33 @@ def circuit_case(ctx, out, comps, w, tseed):
         if not core.close(b[2], a[2], scale * scale, 1e-8): return fail('power', id=k, a=str(a[2]), b=str(b[2]))
         if not core.close(b[3], sg * a[3], scale, 1e-8): return fail('dc_voltage', id=k, a=str(a[3]), b=str(b[3]))
         if not core.close(b[4], sg * a[4], scale, 1e-8): return fail('dc_current', id=k, a=str(a[4]), b=str(b[4]))
+    # ---- the multi-frequency time functions (C09 domain: all source frequencies at once) are invariant as well
+    try:
+        from CircuitCalculator.Circuit.circuit import frequency_components
+        ws = frequency_components(c1, 0.0)
+        ok_all = all(gen_circ.wellposed_at(ctx.driver, c1, float(x)) for x in ws)
+    except Exception:
+        ok_all = False
+    if ok_all and len(ws) >= 1:
+        try:
+            t1 = sol.TimeDomainSolution(c1); f1 = {k: (t1.get_voltage(k), t1.get_current(k)) for k in ids}
+        except Exception as e:
+            out.count('timedomain_unsolvable:' + tag(e)); f1 = None
+        if f1 is not None:
+            try:
+                t2 = sol.TimeDomainSolution(c2); f2 = {k: (t2.get_voltage(tau[k]), t2.get_current(tau[k])) for k in ids}
+                ts = [0.0, 0.3, 1.1, 2.7]
+                for k in ids:
+                    sg = -1 if k in flips else 1
+                    for q, what in ((0, 'time_voltage'), (1, 'time_current')):
+                        a = np.array([complex(f1[k][q](t)) for t in ts]); b = np.array([complex(f2[k][q](t)) for t in ts])
+                        if not (np.all(np.isfinite(a)) and np.all(np.isfinite(b))): continue
+                        if np.max(np.abs(b - sg * a)) > 1e-7 * max(scale * len(ws), float(np.max(np.abs(a)))):
+                            return fail(what, id=k, frequencies=[float(x) for x in ws], a=str(list(a)), b=str(list(sg * b)))
+                out.count('timedomain_compared:%d' % len(ws))
+            except Exception as e:
+                out.spec_fail(dict(canon, symptom='raises', exc=tag(e), op='time_domain'), 'transformed circuit fails in the time-domain solution',
+                              gen_circ.pretty(comps), impl=dict(transformed=gen_circ.pretty(comps2)), comps=comps, w=w, tseed=tseed); return
     out.traces_validated += 1
 
 def transform_state(rng, desc):
